@@ -329,6 +329,7 @@ def run(ctx):
     ctx.coq_file(os.path.join(C.COQ, "props", "C19.v"))
     bad = C.hygiene()
     ctx.obligation("hygiene: no Admitted/Axiom/Parameter/... in coq/", not bad, "; ".join(bad))
+    chk = dsfs.coqchk_start(C.COQ, "C19") if not ctx.quick() else None
     C.use_shadow()
     C.pqref()
     rng = ctx.rng
@@ -446,6 +447,9 @@ def run(ctx):
     ctx.extra["model_trace_vs_recorded_fault_free_trace"] = model_trace
     ctx.notes.append("Ops.append_trace (witness of the relation) equals the recorded fault-free call trace in %d of %d scenarios (information, not an obligation)" % (
         model_trace["equal"], model_trace["equal"] + model_trace["different"]))
+
+    if chk is not None:
+        dsfs.coqchk_finish(ctx, chk, "C19")
 
 
 def replay(rep):
